@@ -22,6 +22,7 @@ type Ctx struct {
 	SizeKind  string                 // "L", "W" or "N": which size SizeRange bounds
 	SizeRange *[2]int64              // when the size is not a single value: an interval containing it (a class of rejected sizes)
 	Lang      *IntV                  // value of every Language-typed parameter of the entry point
+	IntTable  []int64                // value of every []int parameter of the entry point (a predicate helper's table of constants)
 	// Infeasible blocks (from the gate analysis) for contexts that stand for a set of values
 	Infeasible map[*ssa.BasicBlock]bool
 }
@@ -158,10 +159,15 @@ type Eval struct {
 	refs         map[string]Layout // loop-invariant values referenced at offsets affine in t
 	mapGlobals   []*Obj
 	Reads        []ReadInfo
+	limited      map[*Obj]limitedRead                    // buffers read through io.LimitReader (refineLimited)
 	errObj       map[ssa.Instruction]*Obj                // per read call: what is known about its error on the current path
 	lastRets     []retRec                                // the individual returns of the function evaluated last
 	lkObj        map[ssa.Instruction]*Obj                // per word lookup: did it hit on the current path?
 	arrBuf       map[*Obj]*Obj                           // local byte array (cell) -> the buffer object its slices share
+	poolObj      map[*Obj]types.Type                     // objects obtained from a typed sync.Pool: the pointer type they have
+	poolBuf      map[*Obj]bool                           // buffer objects backing arrays obtained from a typed sync.Pool
+	loopHeaders  []*ssa.BasicBlock                       // headers of the loops being evaluated (summarised or one by one), innermost last
+	lkLoopHdr    map[ssa.Instruction]*ssa.BasicBlock     // word lookups made in a function called from inside a loop: that loop's header
 	rawStrParams int                                     // number of string parameters of the entry point
 	sites        []ssa.Instruction                       // call sites of the module functions being evaluated (innermost last)
 	alts         map[ssa.Instruction]map[*Obj]altContent // per guarded call: object contents on its success / failure return
@@ -219,6 +225,10 @@ func (e *Eval) Run(fn *ssa.Function) (res []AV, st State) {
 
 func (e *Eval) bindParam(p *ssa.Parameter) AV {
 	t := p.Type()
+	if gl := e.P.paramGlobal[p]; gl != nil && e.G != nil {
+		// the entry point's wrapper passes the value of this package-level variable
+		return e.G.load(e, gl, t)
+	}
 	if e.isLanguage(t) {
 		if e.Ctx.Lang != nil {
 			return *e.Ctx.Lang
@@ -240,6 +250,13 @@ func (e *Eval) bindParam(p *ssa.Parameter) AV {
 			return StrV{Kind: skRaw, S: p.Name()}
 		}
 	case *types.Slice:
+		if b, ok := u.Elem().Underlying().(*types.Basic); ok && b.Info()&types.IsInteger != 0 && b.Kind() != types.Uint8 && e.Ctx.IntTable != nil {
+			elems := make([]AV, len(e.Ctx.IntTable))
+			for i, c := range e.Ctx.IntTable {
+				elems[i] = CInt(c)
+			}
+			return VecV{Elems: elems}
+		}
 		if b, ok := u.Elem().Underlying().(*types.Basic); ok && b.Kind() == types.Uint8 {
 			bv := BytesV{Src: "param:" + p.Name(), Param: p}
 			if e.Ctx.EntLen != nil {
@@ -407,6 +424,9 @@ func (e *Eval) evalFunc(fn *ssa.Function, args []AV, bindings []AV, st State, de
 			}
 		}
 		done[b] = true
+		if e.splitReturn(fr, b) {
+			continue
+		}
 		e.evalBlock(fr, b, in)
 	}
 	// join returns
@@ -742,23 +762,85 @@ func (e *Eval) joinCondErr(out State, ins []State) {
 	}
 }
 
+// skippedOrOK is what the outcome cell of a fallible call holds after a merge of a path on
+// which the call succeeded with a path that did not make the call at all: no failure was
+// passed over, but the step cannot be said to have been carried out.
+var skippedOrOK AV = CStr("not executed, or executed successfully")
+
+func isSkippedOrOK(v AV) bool {
+	s, ok := v.(StrV)
+	return ok && s.Kind == skConst && s.S == skippedOrOK.(StrV).S
+}
+
+func isOutcomeCell(o *Obj) bool {
+	return o.Kind == okCell && strings.HasPrefix(o.Note, "outcome of ")
+}
+
+// outcomeOneSided: the outcome cell exists on one path only.
+func outcomeOneSided(c Content) Content {
+	cc, ok := c.(CellC)
+	if !ok {
+		return c
+	}
+	if b, isB := cc.V.(BoolV); isB && b.Known && b.Val {
+		return CellC{skippedOrOK}
+	}
+	if isSkippedOrOK(cc.V) {
+		return c
+	}
+	return CellC{BoolV{}} // failed or untested on the path that made the call
+}
+
 func joinStates(a, b State) State {
 	out := State{}
 	for o, ca := range a {
 		cb, ok := b[o]
 		if !ok {
+			if isOutcomeCell(o) {
+				out[o] = outcomeOneSided(ca)
+				continue
+			}
+			if o.Kind == okCell && o.Note == "lookup-hit" {
+				out[o] = CellC{BoolV{}} // the other path did not look the token up at all
+				continue
+			}
 			// object unknown on the other path: it cannot be referenced after the merge unless via φ
 			out[o] = ca
 			continue
 		}
 		if ca.String() == cb.String() {
 			out[o] = ca
+		} else if isOutcomeCell(o) {
+			// succeeded on one side, skipped-or-succeeded on the other: still no failure passed over
+			okSide := func(c Content) bool {
+				cc, isC := c.(CellC)
+				if !isC {
+					return false
+				}
+				if bv, isB := cc.V.(BoolV); isB && bv.Known && bv.Val {
+					return true
+				}
+				return isSkippedOrOK(cc.V)
+			}
+			if okSide(ca) && okSide(cb) {
+				out[o] = CellC{skippedOrOK}
+			} else {
+				out[o] = CellC{BoolV{}}
+			}
 		} else {
 			out[o] = topContent(o, "differs at merge")
 		}
 	}
 	for o, cb := range b {
 		if _, ok := a[o]; !ok {
+			if isOutcomeCell(o) {
+				out[o] = outcomeOneSided(cb)
+				continue
+			}
+			if o.Kind == okCell && o.Note == "lookup-hit" {
+				out[o] = CellC{BoolV{}}
+				continue
+			}
 			out[o] = cb
 		}
 	}
@@ -824,6 +906,75 @@ func (e *Eval) evalBlock(fr *frame, b *ssa.BasicBlock, st State) {
 		defer func() { e.activeLoops = e.activeLoops[:len(e.activeLoops)-1] }()
 	}
 	e.evalBlockIn(fr, b, st)
+}
+
+// splitReturn: b only merges result variables and returns them (φ-nodes and a return, the
+// shape of `result = …` on every branch followed by one `return result, err`).  Instead of
+// joining what the branches computed, each feasible way into b is an exit of its own, with
+// the values the φ-nodes take on that edge and the conditions that lead there.
+func (e *Eval) splitReturn(fr *frame, b *ssa.BasicBlock) bool {
+	if len(b.Succs) != 0 || fr.loop != nil || fr.blockLp[b] != nil || len(e.activeLoops) > 0 || fr.unroll > 0 {
+		return false
+	}
+	if e.Ctx != nil && e.Ctx.Infeasible != nil && e.Ctx.Infeasible[b] {
+		return false
+	}
+	var ret *ssa.Return
+	nphi := 0
+	for _, in := range b.Instrs {
+		switch x := in.(type) {
+		case *ssa.Phi:
+			nphi++
+		case *ssa.DebugRef:
+		case *ssa.Return:
+			ret = x
+		default:
+			return false
+		}
+	}
+	if ret == nil || nphi == 0 {
+		return false
+	}
+	var feasible []int
+	for i, p := range b.Preds {
+		if fr.edgeOK[[2]*ssa.BasicBlock{p, b}] {
+			feasible = append(feasible, i)
+		}
+	}
+	if len(feasible) < 2 || len(feasible) > 16 {
+		return false
+	}
+	for _, i := range feasible {
+		p := b.Preds[i]
+		st := fr.edge[[2]*ssa.BasicBlock{p, b}].clone()
+		vals := make([]AV, len(ret.Results))
+		for k, r := range ret.Results {
+			v := r
+			if phi, ok := r.(*ssa.Phi); ok && phi.Block() == b && i < len(phi.Edges) {
+				v = phi.Edges[i]
+			}
+			vals[k] = e.errOnPath(e.val(fr, v), st)
+		}
+		conds := e.controlling(fr, p)
+		if ifi, ok := p.Instrs[len(p.Instrs)-1].(*ssa.If); ok && len(p.Succs) == 2 && p.Succs[0] != p.Succs[1] {
+			conds = append([]EdgeCond{{If: ifi, Taken: p.Succs[0] == b, Val: e.val(fr, ifi.Cond)}}, conds...)
+		}
+		fr.rets = append(fr.rets, retRec{vals, st})
+		e.Exits = append(e.Exits, Exit{Fn: fr.fn, Ret: ret, Vals: vals, Conds: conds, InLoop: false, AfterLoop: fr.afterLp[p] || e.afterLoop(fr, p) || fr.afterLp[b], Depth: fr.depth, State: st, Site: e.curSite()})
+	}
+	// the φ-nodes keep their joined value for anything that might still ask
+	for _, in := range b.Instrs {
+		if phi, ok := in.(*ssa.Phi); ok {
+			var cur AV
+			for _, i := range feasible {
+				if i < len(phi.Edges) {
+					cur = joinAV(cur, e.val(fr, phi.Edges[i]))
+				}
+			}
+			fr.env[phi] = cur
+		}
+	}
+	return true
 }
 
 // runDefers runs the deferred calls registered on the way to x, last in first out; closures
@@ -1106,6 +1257,9 @@ type altContent struct {
 // refineOnEdge: on the edge where an error value was compared with nil, remember the outcome
 // for that SSA value (so `return "", err` after `if err != nil` is known non-nil).
 func refineOnEdge(fr *frame, st State, cond ssa.Value, bv BoolV, taken bool) State {
+	if len(fr.ev.limited) > 0 {
+		st = fr.ev.refineLimited(fr, st, cond, taken)
+	}
 	if !bv.Known && bv.C != nil && bv.C.Kind == "lookupok" && bv.C.Site != nil {
 		if o := fr.ev.lkObj[bv.C.Site]; o != nil {
 			n := st.clone()
@@ -1133,6 +1287,87 @@ func refineOnEdge(fr *frame, st State, cond ssa.Value, bv BoolV, taken bool) Sta
 		e.errObj[ev.Site] = o
 	}
 	e.applyOutcome(n, ev.Site, isNil)
+	return n
+}
+
+// limitedRead: a buffer filled by ReadAll(io.LimitReader(body, N)).
+type limitedRead struct {
+	N   int64
+	URL AV
+}
+
+// refineLimited: on an edge where len(b) is known to be below the limit N of the LimitReader b
+// was read through, nothing was cut off: b holds the whole download.
+func (e *Eval) refineLimited(fr *frame, st State, cond ssa.Value, taken bool) State {
+	hold := taken
+	for {
+		u, ok := cond.(*ssa.UnOp)
+		if !ok || u.Op != token.NOT {
+			break
+		}
+		hold, cond = !hold, u.X
+	}
+	bo, ok := cond.(*ssa.BinOp)
+	if !ok {
+		return st
+	}
+	lhs, rhs, op := bo.X, bo.Y, bo.Op
+	if _, isC := intConst(lhs); isC {
+		lhs, rhs, op = rhs, lhs, flipOp(op)
+	}
+	k, isC := intConst(rhs)
+	if !isC {
+		return st
+	}
+	if !hold {
+		switch op {
+		case token.GTR:
+			op = token.LEQ
+		case token.GEQ:
+			op = token.LSS
+		case token.LSS:
+			op = token.GEQ
+		case token.LEQ:
+			op = token.GTR
+		case token.EQL:
+			op = token.NEQ
+		case token.NEQ:
+			op = token.EQL
+		}
+	}
+	var ub int64
+	switch op {
+	case token.LEQ, token.EQL:
+		ub = k
+	case token.LSS:
+		ub = k - 1
+	default:
+		return st
+	}
+	for {
+		cv, ok := lhs.(*ssa.Convert)
+		if !ok {
+			break
+		}
+		lhs = cv.X
+	}
+	call, ok := lhs.(*ssa.Call)
+	if !ok || !isBuiltinCall(call, "len") {
+		return st
+	}
+	b, ok := e.val(fr, call.Call.Args[0]).(BytesV)
+	if !ok || b.Obj == nil {
+		return st
+	}
+	lr, ok := e.limited[b.Obj]
+	if !ok || ub >= lr.N {
+		return st
+	}
+	if bc, ok := st[b.Obj].(BufC); !ok || !strings.HasPrefix(bc.B.Src, "⊤: at most the first") {
+		return st // already refined, or written since
+	}
+	n := st.clone()
+	n[b.Obj] = BufC{BytesV{Src: "download", Str: StrV{Kind: skSrc, S: "download", X: lr.URL}}}
 	return n
 }
 
@@ -1943,7 +2178,141 @@ func (e *Eval) evalPhi(fr *frame, x *ssa.Phi) AV {
 	if cur == nil {
 		return TopV{"phi without feasible edge"}
 	}
+	if v := e.emptyArmJoin(fr, x); v != nil {
+		return v
+	}
 	return cur
+}
+
+// emptyArmJoin recognises `if s != "" { t = X + s } else { t = X }` (either order, also with
+// len(s) as the test): on the arm where the untouched string parameter s is empty, X is X + s,
+// so the merged value is X + s on both arms.  Returns nil when the φ-node is not of that form.
+func (e *Eval) emptyArmJoin(fr *frame, x *ssa.Phi) AV {
+	b := x.Block()
+	var ps []*ssa.BasicBlock
+	var vs []AV
+	for i, p := range b.Preds {
+		if !fr.edgeOK[[2]*ssa.BasicBlock{p, b}] {
+			continue
+		}
+		if _, ok := fr.phiIn[[2]*ssa.BasicBlock{p, b}]; ok {
+			return nil
+		}
+		ps = append(ps, p)
+		vs = append(vs, e.val(fr, x.Edges[i]))
+	}
+	if len(ps) != 2 {
+		return nil
+	}
+	for k := 0; k < 2; k++ {
+		full, ok := vs[k].(StrV)
+		if !ok || full.Kind != skConcat || len(full.Parts) < 2 {
+			continue
+		}
+		for i, part := range full.Parts {
+			raw, ok := part.(StrV)
+			if !ok || raw.Kind != skRaw {
+				continue
+			}
+			var rest AV
+			if len(full.Parts) == 2 {
+				rest = full.Parts[1-i]
+			} else {
+				r := full
+				r.Parts = append(append([]AV{}, full.Parts[:i]...), full.Parts[i+1:]...)
+				rest = r
+			}
+			if rest.String() != vs[1-k].String() {
+				continue
+			}
+			if e.emptyOnEdge(fr, ps[1-k], b, raw.S) {
+				return full
+			}
+		}
+	}
+	return nil
+}
+
+// emptyOnEdge: the edge p→b is taken only when the untouched string parameter named name is "".
+func (e *Eval) emptyOnEdge(fr *frame, p, b *ssa.BasicBlock, name string) bool {
+	edges := e.ctrlEdges(p)
+	if ifi, ok := p.Instrs[len(p.Instrs)-1].(*ssa.If); ok && len(p.Succs) == 2 && p.Succs[0] != p.Succs[1] {
+		edges = append([]ctrlEdge{{If: ifi, Taken: p.Succs[0] == b}}, edges...)
+	}
+	isParam := func(v ssa.Value) bool {
+		sv, ok := e.val(fr, v).(StrV)
+		return ok && sv.Kind == skRaw && sv.S == name
+	}
+	for _, c := range edges {
+		cv, hold := c.If.Cond, c.Taken
+		for {
+			u, ok := cv.(*ssa.UnOp)
+			if !ok || u.Op != token.NOT {
+				break
+			}
+			hold, cv = !hold, u.X
+		}
+		bo, ok := cv.(*ssa.BinOp)
+		if !ok {
+			continue
+		}
+		lhs, rhs, op := bo.X, bo.Y, bo.Op
+		if _, isC := lhs.(*ssa.Const); isC {
+			lhs, rhs = rhs, lhs
+			switch op {
+			case token.LSS:
+				op = token.GTR
+			case token.GTR:
+				op = token.LSS
+			case token.LEQ:
+				op = token.GEQ
+			case token.GEQ:
+				op = token.LEQ
+			}
+		}
+		k, isC := rhs.(*ssa.Const)
+		if !isC || k.Value == nil {
+			continue
+		}
+		if !hold {
+			switch op {
+			case token.EQL:
+				op = token.NEQ
+			case token.NEQ:
+				op = token.EQL
+			case token.GTR:
+				op = token.LEQ
+			case token.LEQ:
+				op = token.GTR
+			case token.LSS:
+				op = token.GEQ
+			case token.GEQ:
+				op = token.LSS
+			}
+		}
+		if k.Value.Kind() == constant.String && constant.StringVal(k.Value) == "" && isParam(lhs) {
+			if op == token.EQL || op == token.LEQ {
+				return true
+			}
+			continue
+		}
+		call, ok := lhs.(*ssa.Call)
+		if !ok || len(call.Call.Args) != 1 {
+			continue
+		}
+		if bi, ok := call.Call.Value.(*ssa.Builtin); !ok || bi.Name() != "len" || !isParam(call.Call.Args[0]) {
+			continue
+		}
+		n, exact := constant.Int64Val(k.Value)
+		if !exact {
+			continue
+		}
+		// len(s) == 0, len(s) <= 0, len(s) < 1
+		if (n == 0 && (op == token.EQL || op == token.LEQ)) || (n == 1 && op == token.LSS) {
+			return true
+		}
+	}
+	return false
 }
 
 // ---------------------------------------------------------------- values
@@ -2225,8 +2594,19 @@ func (e *Eval) instr(fr *frame, in ssa.Instruction, st State) {
 			}
 		}
 	case *ssa.TypeAssert:
+		if pv, ok := e.val(fr, x.X).(PtrV); ok && pv.O != nil && e.poolObj[pv.O] != nil && types.Identical(e.poolObj[pv.O], x.AssertedType) {
+			// what a typed sync.Pool yields, asserted to the type it holds
+			e.event("P1", Discharged, x, "type assertion of a value from a sync.Pool that only ever holds %v", x.AssertedType)
+			if x.CommaOk {
+				fr.env[x] = TupleV{pv, KBool(true)}
+			} else {
+				fr.env[x] = pv
+			}
+			break
+		}
 		if !x.CommaOk {
-			e.event("P1", Violated, x, "type assertion without comma-ok can panic")
+			// whether it panics depends on the dynamic type, which is not tracked
+			e.event("P1", Undecided, x, "type assertion without comma-ok: panics unless the value holds a %v, which is not established", x.AssertedType)
 		}
 		fr.env[x] = e.topOf(x.Type(), "type assertion")
 	case *ssa.Defer:
@@ -2600,6 +2980,19 @@ func (e *Eval) binop(fr *frame, x *ssa.BinOp) AV {
 	return e.fit(e.arith(fr, x, ia, ib), x.Type(), fr.T())
 }
 
+// maskRun: c = ((1<<w)-1) << lo, a single run of w ones starting at bit lo.
+func maskRun(c int64) (lo, w int64, ok bool) {
+	if c <= 0 {
+		return 0, 0, false
+	}
+	for c&1 == 0 {
+		c >>= 1
+		lo++
+	}
+	k, ok := maskWidth(c)
+	return lo, k, ok
+}
+
 func (e *Eval) arith(fr *frame, x *ssa.BinOp, a, b IntV) IntV {
 	if a.Kind == ikMinLen || b.Kind == ikMinLen {
 		ca, aC := a.Const()
@@ -2777,7 +3170,24 @@ func (e *Eval) arith(fr *frame, x *ssa.BinOp, a, b IntV) IntV {
 			}
 		}
 		if a.Kind == ikBits && bConst && x.Op == token.SHL {
-			return BitsInt(a.Bits.Shl(K(cb)))
+			sh := a.Bits.Shl(K(cb))
+			// a machine integer keeps only the low bits of the shifted value
+			tlo, _, _, tb, okT := e.typeRange(x.Type())
+			if okT && tb > 0 {
+				w, okw := sh.DeclWidth()
+				switch {
+				case okw && w <= int64(tb) && (tlo == 0 || w < int64(tb)):
+					// fits: nothing is lost (and, for a signed type, the sign bit stays clear)
+				case tlo == 0:
+					if low, ok := sh.Low(int64(tb)); ok {
+						return BitsInt(low)
+					}
+					return TopInt("shift overflows")
+				default:
+					return TopInt("shift overflows a signed integer")
+				}
+			}
+			return BitsInt(sh)
 		}
 		if bConst && cb < int64(bits) && a.Kind == ikRange {
 			// an interval shifted by a constant
@@ -2795,6 +3205,9 @@ func (e *Eval) arith(fr *frame, x *ssa.BinOp, a, b IntV) IntV {
 		if aConst && bConst {
 			return CInt(ca & cb)
 		}
+		if aConst && !bConst {
+			a, b, ca, cb, aConst, bConst = b, a, cb, ca, bConst, aConst
+		}
 		if bConst && cb >= 0 {
 			if a.Kind == ikBits {
 				if k, ok := maskWidth(cb); ok {
@@ -2802,11 +3215,17 @@ func (e *Eval) arith(fr *frame, x *ssa.BinOp, a, b IntV) IntV {
 						return BitsInt(l)
 					}
 				}
+				// a run of ones that does not start at bit 0 (0xf0, 0xfc…): those bits stay where
+				// they are, the bits below them become zero
+				if lo, w, ok := maskRun(cb); ok && lo > 0 {
+					if l, ok := a.Bits.Slice(lo, w); ok {
+						out := Layout{{W: K(lo)}}
+						out = append(out, l...)
+						return BitsInt(out.Norm())
+					}
+				}
 			}
 			return RangeInt(0, cb)
-		}
-		if aConst && ca >= 0 {
-			return RangeInt(0, ca)
 		}
 		return TopInt("and")
 	case token.OR, token.XOR:
@@ -2950,6 +3369,30 @@ func (e *Eval) sentenceNonEmpty(s StrV) bool {
 
 func (e *Eval) compare(fr *frame, x *ssa.BinOp, a, b AV) AV {
 	T := fr.T()
+	if x.Op == token.EQL || x.Op == token.NEQ {
+		// `ok == false`, `true != found`: the other operand, negated or not
+		if ba, ok := a.(BoolV); ok {
+			if bb, ok := b.(BoolV); ok {
+				if ba.Known && !bb.Known {
+					ba, bb = bb, ba
+				}
+				if bb.Known {
+					same := bb.Val == (x.Op == token.EQL) // the result is ba itself
+					switch {
+					case ba.Known:
+						return KBool(ba.Val == same)
+					case ba.C == nil:
+						return BoolV{}
+					case same:
+						return ba
+					default:
+						ba.Neg = !ba.Neg
+						return ba
+					}
+				}
+			}
+		}
+	}
 	if cv, ok := a.(CmpV); ok {
 		if ib, ok := b.(IntV); ok {
 			if c, ok := ib.Const(); ok && c == 0 {
@@ -3050,6 +3493,13 @@ func (e *Eval) compare(fr *frame, x *ssa.BinOp, a, b AV) AV {
 			if ev.NonNil {
 				return KBool(x.Op == token.NEQ)
 			}
+		}
+		if lv, ok := o.(*ListV); ok && lv != nil && len(lv.Elems) > 0 {
+			// a package-level word list (a literal with elements, never assigned: E1): not nil
+			if lv.G != nil {
+				e.Relied[lv.G] = true
+			}
+			return KBool(x.Op == token.NEQ)
 		}
 		if mv, ok := o.(MapV); ok {
 			if e.G != nil && mv.G != nil && e.G.MapNonNil[mv.G] {
@@ -3171,6 +3621,12 @@ func (e *Eval) loadElem(fr *frame, x ssa.Instruction, el *ElemRef, st State) AV 
 	case BytesV:
 		// one byte of a byte string with known content
 		src := e.resolveBytes(b, st)
+		if c, ok := el.Idx.Const(); ok && src.ConstAt != nil && src.LenKnown && src.Len.Const() && c >= 0 && c < src.Len.A {
+			if x, has := src.ConstAt[c]; has {
+				return CInt(x)
+			}
+			return CInt(0) // never stored: still the zero the array started with
+		}
 		if c, ok := el.Idx.Const(); ok && src.LenKnown && src.Len.Const() && src.HasVal && !src.Min && c >= 0 && c < src.Len.A {
 			if v, ok := src.Val.Slice(8*(src.Len.A-1-c), 8); ok {
 				return BitsInt(v)
@@ -3215,6 +3671,11 @@ func (e *Eval) loadElem(fr *frame, x ssa.Instruction, el *ElemRef, st State) AV 
 			if vc, ok := st[b.O].(VecC); ok {
 				if c, ok := el.Idx.Const(); ok && c >= 0 && c < int64(len(vc.Elems)) && vc.Elems[c] != nil {
 					return vc.Elems[c]
+				}
+				if _, isConst := el.Idx.Const(); !isConst && fr.loop != nil {
+					// which element depends on the iteration: an iteration-by-iteration evaluation
+					// of the enclosing loop would know
+					fr.loop.imprecise = true
 				}
 			}
 			if cc, ok := st[b.O].(CellC); ok {
@@ -3503,6 +3964,9 @@ func (e *Eval) slice(fr *frame, x *ssa.Slice, st State) AV {
 		e.event("P2", Discharged, x, "slice bounds [%v:%v] within %v in each of the %d iterations", lo, hi, n, fr.T())
 	case !ok1 || !ok2 || !okn:
 		e.event("P2", Undecided, x, "slice bounds [%v:%v] of %v (len %v) cannot be bounded", lo, hi, shortAV(base), n)
+	case (l1 < 0 || h1 > l2 || h2 > nl) && func() bool { _, nh, _ := n.Bounds(fr.T()); return nh != nl }():
+		// the length itself is only known as an interval: nothing definite either way
+		e.event("P2", Undecided, x, "slice bounds [%v:%v] are not shown to stay within [0,%v]", lo, hi, n)
 	case l1 < 0 || h1 > l2 || h2 > nl:
 		e.event("P2", Violated, x, "slice bounds [%v:%v] can leave [0,%v]", lo, hi, n)
 	default:
@@ -3613,6 +4077,12 @@ func (e *Eval) arrayBuffer(fr *frame, x ssa.Instruction, cell *Obj, bv BytesV, s
 	if bo == nil {
 		bo = e.newObj(okBuf, x, "backing array of "+cell.Note)
 		e.arrBuf[cell] = bo
+		if e.poolObj[cell] != nil {
+			if e.poolBuf == nil {
+				e.poolBuf = map[*Obj]bool{}
+			}
+			e.poolBuf[bo] = true
+		}
 	}
 	content := bv
 	content.Obj = nil
@@ -3642,6 +4112,16 @@ func (e *Eval) lookup(fr *frame, x *ssa.Lookup, st State) AV {
 		}
 		if e.lkObj[x] == nil {
 			e.lkObj[x] = e.newObj(okCell, x, "lookup-hit")
+		}
+		if n := len(e.loopHeaders); n > 0 && x.Block() != nil {
+			// made while a loop is being evaluated (possibly in a function the loop calls): that
+			// loop's verdict on "every way round passed the hit edge" covers it
+			if e.lkLoopHdr == nil {
+				e.lkLoopHdr = map[ssa.Instruction]*ssa.BasicBlock{}
+			}
+			if x.Parent() != e.loopHeaders[n-1].Parent() {
+				e.lkLoopHdr[x] = e.loopHeaders[n-1]
+			}
 		}
 		e.setContentFresh(st, e.lkObj[x], CellC{BoolV{}})
 	}
@@ -3826,6 +4306,16 @@ func (e *Eval) storeElem(fr *frame, x *ssa.Store, el *ElemRef, v AV, st State) {
 					// one byte of a local byte array
 					c, okc := el.Idx.Const()
 					iv, okv := v.(IntV)
+					if cv, isC := iv.Const(); okv && isC && cv != 0 && okc && bv.LenKnown && bv.Len.Const() && c >= 0 && c < bv.Len.A && (bv.ConstAt != nil || (bv.HasVal && len(bv.Val.Norm()) == 0)) {
+						// a table of byte constants being filled in: remembered byte by byte
+						n := BytesV{LenKnown: true, Len: bv.Len, Src: "table of byte constants", ConstAt: map[int64]int64{}}
+						for k, x := range bv.ConstAt {
+							n.ConstAt[k] = x
+						}
+						n.ConstAt[c] = cv & 0xff
+						e.setContent(fr, st, b.O, CellC{n})
+						return
+					}
 					var nb Layout
 					okb := false
 					switch {
